@@ -9,7 +9,8 @@ EXPLANATION = ("R17.1 the InputAmount/OutputAmount query arms and the SwapInput/
                "R17.2 the reserve writer receives the requested amount on the requested side and the priced amount on the other; "
                "R17.3 limit table per swap kind and direction on every success path (receive: amount >= limit, owe: amount <= limit, "
                "zero limit: no test) and nothing else rejects on the limit; R17.5 the caller's limit reaches the vAMM message field "
-               "unchanged on OpenPosition (increase, reduce), whole ClosePosition and full Liquidate.")
+               "unchanged on OpenPosition (increase, reduce), whole ClosePosition and full Liquidate."
+               " R17.6 the reduce-vs-reverse decision compares the position's spot notional with the order; R17.7 every success path of SwapInput/SwapOutput stores the vAMM State.")
 NOT_DECIDED = "the arithmetic of the pricing function (C01) and overflow behaviour."
 
 VAMM = "margined_vamm"
